@@ -910,6 +910,119 @@ def judge_C12_lemma(w):
     return None
 
 
+# ------------------------------------------------------------------------------------------------ C13 (protocol forwarding)
+def c13_reference(plan, payload_proto):
+    """plan[r][c] = list of messages (valid, kind) reader r returns at call c. -> expected queue content as (r, c, i) triples"""
+    n_calls = len(plan[0]) if plan else 0
+    selected, expect = None, []
+    for c in range(n_calls):
+        if selected is None:
+            for r, calls in enumerate(plan):
+                if any(m[0] for m in calls[c]):
+                    selected = r
+                    break
+        if selected is not None:
+            for i, m in enumerate(plan[selected][c]):
+                if payload_proto:
+                    if m[0] and m[1] == 2:
+                        expect.append([selected, c, i])
+                else:
+                    expect.append([selected, c, i])
+    return expect
+
+
+def c13_stub_run(w):
+    import asyncio, warnings
+    from han import meter_connection as mc
+    from han.common import MeterMessageBase, MeterMessageType, MeterReaderBase
+    warnings.simplefilter("ignore")
+
+    class Msg(MeterMessageBase):
+        def __init__(self, key, valid, kind):
+            self.key, self._v, self._k = key, valid, kind
+        message_type = property(lambda s: MeterMessageType.UNKNOWN)
+        is_valid = property(lambda s: s._v)
+        as_bytes = property(lambda s: b"\x00")
+        payload = property(lambda s: None if s._k == 0 else (b"" if s._k == 1 else b"P%d.%d.%d" % tuple(s.key)))
+
+    class Reader(MeterReaderBase):
+        def __init__(self, r, calls):
+            self.r, self.calls, self.n = r, calls, 0
+        is_in_hunt_mode = property(lambda s: True)
+
+        def read(self, data):
+            c = self.n
+            self.n += 1
+            return [Msg([self.r, c, i], bool(m[0]), m[1]) for i, m in enumerate(self.calls[c])]
+    loop = asyncio.new_event_loop()
+    asyncio.set_event_loop(loop)
+    try:
+        q = asyncio.Queue()
+        cls = mc.SmartMeterMessagePayloadProtocol if w["proto"] == "payload" else mc.SmartMeterMessageProtocol
+        p = cls(q, [Reader(r, calls) for r, calls in enumerate(w["plan"])])
+        for c in range(len(w["plan"][0])):
+            p.data_received(b"chunk")
+        got = []
+        while not q.empty():
+            x = q.get_nowait()
+            got.append([int(v) for v in x[1:].split(b".")] if isinstance(x, bytes) else list(x.key))
+        return got
+    finally:
+        asyncio.set_event_loop(None)
+        loop.close()
+
+
+def observe_C13_stub(w):
+    return c13_stub_run(w)
+
+
+def judge_C13_stub(w):
+    try:
+        got = c13_stub_run(w)
+    except Exception as e:
+        return {"signature": "exception:" + exc_signature(e), "detail": repr(e)}
+    exp = c13_reference(w["plan"], w["proto"] == "payload")
+    if got != exp:
+        return {"signature": f"forwarding-differs:{w['proto']}", "detail": f"plan (reader x call x (valid, payload kind)) = {w['plan']}: queue has {got}, expected {exp}"}
+    return None
+
+
+def c13_real_run(w):
+    import asyncio, warnings
+    from han import meter_connection as mc
+    warnings.simplefilter("ignore")
+    loop = asyncio.new_event_loop()
+    asyncio.set_event_loop(loop)
+    try:
+        q = asyncio.Queue()
+        cls = mc.SmartMeterMessagePayloadProtocol if w["proto"] == "payload" else mc.SmartMeterMessageProtocol
+        p = cls(q, [make_reader(n) for n in w["readers"]])
+        for ch in w["chunks"]:
+            p.data_received(bytes.fromhex(ch))
+        got = []
+        while not q.empty():
+            x = q.get_nowait()
+            got.append(H(x) if isinstance(x, (bytes, bytearray)) else H(x.payload))
+        return got
+    finally:
+        asyncio.set_event_loop(None)
+        loop.close()
+
+
+def observe_C13_real(w):
+    return c13_real_run(w)
+
+
+def judge_C13_real(w):
+    try:
+        got = c13_real_run(w)
+    except Exception as e:
+        return {"signature": "exception:" + exc_signature(e), "detail": repr(e)}
+    if got != w["expect"]:
+        return {"signature": f"clean-stream-payloads-differ:{w['proto']}", "detail": f"readers={w['readers']} chunks={w['chunks']}: queue {got}, expected {w['expect']}"}
+    return None
+
+
 # ------------------------------------------------------------------------------------------------ dispatch
 def observe(prop, w):
     fn = globals().get("observe_" + prop + ("_" + w["sub"] if w.get("sub") else ""))
